@@ -501,6 +501,11 @@ def r10_rotation_of_copies_and_lookup(idx, r):
     from .c14 import location_table_fresh_rule
     r4_block_rotation(idx, r)
     location_table_fresh_rule(idx, r)
+    # (c) the copies are independent of their sources: a __deepcopy__ override registers only the new object in the memo (R01.13) - a pin
+    # lattice put into the memo is shared between a source block and its rotated copies
+    from ..report import Only
+    from .c01 import r13_single_parent_paths
+    r13_single_parent_paths(idx, Only(r, ["Block.__deepcopy__", "Core.__deepcopy__", "Reactor.__deepcopy__", "ExcoreCollection.__deepcopy__", "HexBlock.__deepcopy__"]))
 
 
 def r11_pairing(idx, r):
